@@ -370,3 +370,40 @@ package migrate
 //@           0 <= old(GvcCntH(files, i)) && old(GvcCntH(files, i)) < len(hs))
 //@   loop 1 invariant (forall i int :: 0 <= i && i < loopk && !old(GvcSumIgnored(files[i])) ==>
 //@           hs[old(GvcCntH(files, i))].N == old(files[i].Name()))
+
+// ---------------------------------------------------------------------------------------
+// C14: the dev database is snapshotted first and always handed back restored
+// (typestate of the dev connection as ghost state)
+
+//@ ghost var GvcSnapOpen bool
+//@ ghost var GvcSnapErr error
+//@ ghost var GvcSnapCalls int
+//@ ghost var GvcDirty bool
+//@ ghost var GvcUnprotected bool
+//@ ghost var GvcRestoreCalls int
+//@ ghost var GvcRestoreErr error
+
+//@ extern func (s Snapshoter) Snapshot(ctx context.Context) (restore RestoreFunc, err error)
+//@   effect GvcSnapCalls++; GvcSnapErr = err; if err == nil { GvcSnapOpen = true }
+//@   ensures err == nil ==> restore != nil
+//@ extern func (f RestoreFunc) call(ctx context.Context) (err error)
+//@   effect GvcRestoreCalls++; GvcRestoreErr = err; GvcSnapOpen = false; if err == nil { GvcDirty = false }
+//@ extern func (r StateReader) ReadState(ctx context.Context) (realm *schema.Realm, err error)
+//@ extern func (o ReplayOption) call(c *replayConfig)
+//@   modifies *c
+
+//@ func (e *Executor) ExecuteN(ctx context.Context, n int) (err error)
+//@   trusted
+//@   effect if !GvcSnapOpen { GvcUnprotected = true }; GvcDirty = true
+//@ func (e *Executor) ExecuteTo(ctx context.Context, version string) (err error)
+//@   trusted
+//@   effect if !GvcSnapOpen { GvcUnprotected = true }; GvcDirty = true
+
+//@ func (e *Executor) Replay(ctx context.Context, r StateReader, opts ...ReplayOption) (realm *schema.Realm, err error)
+//@   requires e != nil && e.drv != nil && r != nil && !GvcSnapOpen
+//@   requires (forall i int :: 0 <= i && i < len(opts) ==> opts[i] != nil)
+//@   modifies GvcSnapOpen, GvcSnapErr, GvcSnapCalls, GvcDirty, GvcUnprotected, GvcRestoreCalls, GvcRestoreErr
+//@   ensures snapshot-first: GvcSnapCalls == old(GvcSnapCalls) + 1 && GvcUnprotected == old(GvcUnprotected)
+//@   ensures refused-snapshot-touches-nothing: GvcSnapErr != nil ==> err != nil && GvcDirty == old(GvcDirty) && GvcRestoreCalls == old(GvcRestoreCalls)
+//@   ensures always-restored: GvcSnapErr == nil ==> GvcRestoreCalls == old(GvcRestoreCalls) + 1 && !GvcSnapOpen && (GvcRestoreErr == nil ==> !GvcDirty)
+//@   ensures restore-error-reported: GvcSnapErr == nil && GvcRestoreErr != nil ==> err != nil
